@@ -455,7 +455,7 @@ def store_is_dir(query):
 def store_keys():
     store = get_store()
     try:
-        keys = store.keys()
+        keys = list(store.keys())  # keys() of some stores (FileStore, MountPointStore) is a generator
         return jsonify(
             dict(query=None, message=f"Keys obtained", keys=keys, status="OK")
         )
